@@ -63,6 +63,10 @@ def run_tool(scn, fn, prefix=()):
                 raise
             out.exc = f"{type(e).__name__}: {e}"[:400]
             out.exc_type = type(e).__name__
+            if engine._origin_of(e) == "harness":
+                from vt import common
+
+                raise common.HarnessError(f"exception inside the harness while running a tool: {out.exc}") from e
         finally:
             asyncio.set_event_loop(None)
     out.choices, out.points, out.trace = ch.choices, ch.points, env.trace
